@@ -219,6 +219,7 @@ class Sock(object):
         self.busy = None            # Box of a pending blocking call
         self.ldl_peer = None
         self.dead = False           # frame-rejected / disconnected: lenient
+        self.ends = None            # accepted: (own address, peer address)
 
     def __repr__(self):
         return "<%s%d %s>" % (self.side, self.sid, self.kind)
@@ -245,6 +246,7 @@ class World(object):
         self.pending = []           # (kind, Sock|None, Box, info)
         self.answers = {}           # (side, name) -> admissible results
         self.views = {}             # (side, ssap) -> model view of a CONNECT
+        self.isent = {}             # (side, ssap, dsap) -> I PDUs on the wire
         self.stats = {}
         pair.taps.append(self.before_dispatch)
 
@@ -269,6 +271,9 @@ class World(object):
                     adm, g = tab.lookup(name)
                     self.answers.setdefault((frame.src, name),
                                             set()).update(adm)
+            elif q["type"] == "I":
+                k = (frame.src, q["ssap"], q["dsap"])
+                self.isent[k] = self.isent.get(k, 0) + 1
             elif q["type"] == "CONNECT":
                 name = None
                 if q["dsap"] == 1 and q["sn"]:
@@ -434,6 +439,7 @@ def op_listen(w, s, backlog):
             w.nsock += 1
             n = Sock(w.nsock, s.side, "dlc", a)
             n.role, n.group = "accepted", s.group
+            n.ends = (a.getsockname(), a.getpeername())
             s.group.members.add(n.sid)
             s.accepted.append(n)
             w.socks[s.side].append(n)
@@ -504,8 +510,7 @@ def finish_connect(w, s, box, dest):
     me, far = s.sock.getsockname(), s.sock.getpeername()
     server = None
     for x in w.socks[peer]:
-        if x.role == "accepted" and x.conn is None and x.open and \
-                x.sock.getsockname() == far and x.sock.getpeername() == me:
+        if x.role == "accepted" and x.conn is None and x.ends == (far, me):
             server = x
             break
     if server is None:
@@ -522,6 +527,7 @@ def finish_connect(w, s, box, dest):
     s.role = "client"
     c = Conn(len(w.conns), s, server)
     s.conn = server.conn = c
+    c.broken = not server.open or server.dead
     w.conns.append(c)
     w.count("connections")
     if len([x for x in w.socks[peer] if x.group is server.group
@@ -536,12 +542,23 @@ def op_send(w, s):
         return
     msg = b"C%d/%s/%d" % (c.cid, s.side.encode(), len(c.sent[s.side]))
     try:
-        if s.sock.send(msg, nfc.llcp.MSG_DONTWAIT) is True:
-            c.sent[s.side].append(msg)
-            w.count("stream-sent")
+        if s.sock.send(msg, nfc.llcp.MSG_DONTWAIT) is not True:
+            return
     except nfc.llcp.Error as e:
         if e.errno != E.EWOULDBLOCK:
             c.broken = True
+        return
+    c.sent[s.side].append(msg)
+    w.count("stream-sent")
+    # The message leaves at once: an I PDU still queued when its socket is
+    # closed or frame-rejected is C05's finding (close/unsent-data), which
+    # this check must not trip over.
+    key = (s.side, s.group.addr, c.end[other(s.side)].group.addr)
+    base = sum(1 for m in c.sent[s.side])
+    for _ in range(16):
+        if w.isent.get(key, 0) >= base or c.broken:
+            break
+        xfer(w, s.side)
 
 
 def op_recv(w, s):
@@ -625,9 +642,6 @@ def op_recvfrom(w, s):
                      "reported from %r; it was sent by %s from %d to %d"
                      % (s, s.group.addr, bytes(data)[:8], ssap, match["src"],
                         match["saddr"], match["daddr"]))
-            if s.ldl_peer is not None and ssap != s.ldl_peer:
-                fail(w, "datagram-misdelivered", "%s connected to %d received"
-                     " a datagram from %d" % (s, s.ldl_peer, ssap))
             match["seen"] += 1
             w.count("datagrams-received")
             if match["seen"] > 1:
@@ -685,12 +699,6 @@ def op_close(w, s):
             and s.group.name is not None:
         w.count("excluded:" + NAME_CLASS)
         return
-    if s.conn is not None and not s.conn.broken:
-        # data still queued at close() is C05's finding (close/unsent-data),
-        # not this property's business: let it leave first
-        xfer(w, s.side)
-        if not s.open or s.busy is not None:
-            return
     s.open = False
     if s.conn is not None:
         s.conn.broken = True
@@ -702,11 +710,13 @@ def op_close(w, s):
 
 # ------------------------------------------------------------------ plumbing
 def settle(w):
-    still = []
-    for kind, s, box, info in w.pending:
-        if not box.done:
-            still.append((kind, s, box, info))
+    """handle blocking calls that have returned (re-entrant: finishing a
+    connect sends the marker, which exchanges and settles again)"""
+    for item in list(w.pending):
+        kind, s, box, info = item
+        if not box.done or item not in w.pending:
             continue
+        w.pending.remove(item)
         if kind == "connect":
             finish_connect(w, s, box, info)
         elif kind == "resolve":
@@ -718,7 +728,6 @@ def settle(w):
             if kind == "close" and s.group is not None:
                 # the address is released when close() has returned
                 w.table[s.side].remove(s.group, s.sid, s.owner)
-    w.pending = still
     for name, exc in w.pair.failures():
         raise unexpected(exc, oracle="thread-died")
 
@@ -888,18 +897,19 @@ def run_machine(case, ctx):
 # --------------------------------------------------------------- generators
 side_ = st.sampled_from("ab")
 idx_ = st.integers(0, 40)
-kind_ = st.sampled_from(["ldl", "ldl", "dlc", "dlc", "dlc", "raw"])
+kind_ = st.sampled_from(["ldl", "ldl", "dlc", "dlc", "dlc", "raw", "raw"])
 
 
 def name_():
     return st.one_of(st.sampled_from(VALID), st.sampled_from(VALID[:5]),
                      st.sampled_from(sorted(WELL_KNOWN)),
-                     st.sampled_from(MALFORMED))
+                     st.just("urn:nfc:sn:snep"), st.sampled_from(MALFORMED))
 
 
 def bindarg_():
     return st.one_of(st.none(), st.integers(-1, 70), st.integers(32, 40),
-                     st.integers(0, 6), name_(), name_())
+                     st.integers(0, 6), st.sampled_from([4, 4, 1, 0, 16, 31]),
+                     name_(), name_())
 
 
 OPS = {
@@ -942,7 +952,8 @@ WEIGHTS = (["x"] * 3 + ["pump"] * 6 + ["sock"] * 2 + ["bind"] * 6
 @st.composite
 def machine_case(draw, max_steps):
     ops = []
-    n = draw(st.integers(max_steps // 3, max_steps))
+    n = draw(st.one_of(st.integers(1, max_steps),
+                       st.integers(max_steps // 2, max_steps)))
     for o in draw(st.lists(st.sampled_from(WEIGHTS).flatmap(
             lambda k: OPS[k]), min_size=n, max_size=n)):
         if o[0] == "service":
